@@ -1426,6 +1426,21 @@ class DictIncompleteValue(GenericValue):
         """Sequence of pairs representing the keys and values of the dict."""
         return [(pair.key, pair.value) for pair in self.kv_pairs]
 
+    def is_key_known_optional(self, key: str) -> bool:
+        """Whether the only entries for this literal key are single entries marked
+        as not required (so a dict of this shape may lack the key)."""
+        found = False
+        for pair in self.kv_pairs:
+            my_key = pair.key.value if isinstance(pair.key, AnnotatedValue) else pair.key
+            if pair.is_many or not isinstance(my_key, KnownValue):
+                # An unknown key may or may not be this one; stay permissive.
+                return False
+            if my_key.val == key and type(my_key.val) is type(key):
+                if pair.is_required:
+                    return False
+                found = True
+        return found
+
     def get_value(self, key: Value, ctx: CanAssignContext) -> Value:
         """Return the :class:`Value` for a specific key."""
         possible_values = []
@@ -1525,6 +1540,8 @@ class TypedDictValue(GenericValue):
                         return CanAssignError(f"Key {key} is missing in {other}")
                     else:
                         continue
+                if entry.required and other.is_key_known_optional(key):
+                    return CanAssignError(f"Required key {key} may be missing in {other}")
                 can_assign = entry.typ.can_assign(their_value, ctx)
                 if isinstance(can_assign, CanAssignError):
                     return CanAssignError(
